@@ -184,3 +184,14 @@ func (a *Analysis) ContainerNames() (containers, perSearch []string) {
 	sort.Strings(perSearch)
 	return
 }
+
+// RootRets returns, for each root, the classes of its results under the root context (after Run).
+func (a *Analysis) RootRets() map[*ssa.Function][]Val {
+	out := map[*ssa.Function][]Val{}
+	for _, r := range a.Roots {
+		if s := a.summaries[ctxKey{r.Fn, ctxSig(r.Params)}]; s != nil {
+			out[r.Fn] = s.Rets
+		}
+	}
+	return out
+}
